@@ -111,6 +111,13 @@ def run(tier, seed):
     missing = [e for e in need if not chk.events.get(e)]
     if missing:
         chk.machinery_errors.append("vacuity: spec steps never taken: %s" % missing)
+    # random API sessions (loads, registrations, asserts through both routes, queries advanced step by
+    # step and abandoned between updates, clears) over unusual term shapes; decided by the machine
+    from .. import gen as _gen
+    _rnd = random.Random(seed * 7919 + 8)
+    _ss = [_gen.api_session(_rnd, engines=1, length=_rnd.randint(6, 14)) for _ in range(250 if tier == "quick" else 4000)]
+    for _i in range(0, len(_ss), 2500):
+        chk.machine_family("api-sessions-%d" % (_i // 2500), _ss[_i:_i + 2500], features=features)
     chk.assumptions = ["clear() while a query of the same engine is suspended is unspecified and not generated",
                        "a failing load is a script that raises at top level after its function definitions, or Python text with a syntax error"]
     return chk.finish()
